@@ -57,11 +57,12 @@ def is_even_topology(nodes, r):
 
 
 def old_in_scope(old, p, r):
-    """previous layouts the property quantifies over: at most p lists, each duplicate-free, at most r long"""
+    """previous layouts the property quantifies over: at most p lists, each duplicate-free (any length: ISR lists
+    are longer than r while a node is being moved or after the replica count was lowered)"""
     if len(old) > p:
         return False
     for l in old:
-        if len(l) > r or len(set(l)) != len(l):
+        if len(set(l)) != len(l):
             return False
     return True
 
@@ -101,6 +102,39 @@ def oracle(cases, impl):
             else:
                 fail(cid, c, "namelist", "getNodeNameList did not return: " + out)
             continue
+        if kind in ("A", "U"):
+            # consumers of the layout: allocNodeForNamespace / decideUnwantedRaftNode on a real PDCoordinator
+            ver, ns, p, r = c[1], c[2], int(c[3]), int(c[4])
+            nodes = dec_nodes(c[5])
+            names = [n for n, _ in nodes]
+            isrs = dec_lists(c[6])
+            part = int(c[7])
+            isr = isrs[part] if part < len(isrs) else []
+            ok_scope = r >= 1 and p >= 1 and names and "x" not in names and len(set(names)) == len(names) and \
+                part < p and (ver != V2 or old_in_scope(isrs, p, r))
+            bump("%s %s" % (kind, "in-scope" if ok_scope else "out-of-scope"))
+            if not ok_scope:
+                continue
+            if out == "panic" or out == "error":
+                fail(cid, c, "consumer-panic", "%s on a well-formed register state answered %s" % (
+                    "allocNodeForNamespace" if kind == "A" else "decideUnwantedRaftNode", out),
+                    signature="fillPartitionMapV2 old list longer than replica: nil type assertion in getMinMaxLoadFor*")
+                continue
+            if kind == "A":
+                if out.startswith("ok "):
+                    x = out[3:]
+                    if x not in names or x in isr:
+                        fail(cid, c, "alloc", "allocated node %s is not a live node outside the partition's raft nodes %s" % (x, isr))
+                elif out == "refuse":
+                    # fewer nodes than replicas, or every wanted member is already a raft node
+                    pass
+            else:
+                x = out[3:] if out.startswith("ok ") else None
+                if x is None or (x != "x" and x not in isr):
+                    fail(cid, c, "unwanted", "unwanted node %s is not an ISR member of the partition %s" % (x, isr))
+                elif x == "x" and len(names) >= r and len(isr) > r and len(set(isr)) == len(isr):
+                    fail(cid, c, "unwanted", "ISR %s is longer than replica %d but no member is unwanted" % (isr, r))
+            continue
         if kind not in ("L", "R"):
             bump(kind)
             continue
@@ -125,8 +159,11 @@ def oracle(cases, impl):
                 fail(cid, c, "norefuse", "fewer nodes than replicas but the driver did not refuse: " + out[:60])
             continue
         if not out.startswith("ok "):
+            sig = None
+            if out == "panic" and algo == "v2" and any(len(l) > r for l in old):
+                sig = "fillPartitionMapV2 old list longer than replica: nil type assertion in getMinMaxLoadFor*"
             fail(cid, c, "refused" if out == "refuse" else "panic",
-                 "enough nodes (%d >= %d) but the driver answered %s" % (len(names), r, out[:40]))
+                 "enough nodes (%d >= %d) but the driver answered %s" % (len(names), r, out[:40]), signature=sig)
             continue
         lay = dec_lists(out[3:])
         if len(lay) != p:
@@ -318,7 +355,9 @@ def run(ctx):
              "getRebalancedNamespacePartitions: exhaustive 1..8 (thorough 1..12) nodes x 1..4 DCs (even and one uneven split) x p 1..16 x r 1..5 x both algorithms, "
              "random fresh layouts up to 24 (thorough 40) nodes / p 32 (64), V2 chains (fresh -> lose/add nodes -> rebalance on the previous result, 8-12 steps, "
              "occasional change of r / p), V2 on arbitrary previous layouts incl. malformed ones (panic paths), degenerate inputs; "
-             "N = getNodeNameList; R = the name-list entry point with unsorted/empty DC lists; M = single moveIfUnbalanced steps from explicit states. "
+             "N = getNodeNameList; R = the name-list entry point with unsorted/empty DC lists; M = single moveIfUnbalanced steps from explicit states; "
+             "A / U = allocNodeForNamespace / decideUnwantedRaftNode of a real PDCoordinator over a stub register holding the ISR lists of all partitions "
+             "(derived from chain layouts: members lost, extra members added). "
              "Every Go evaluation is done 3 times on freshly built maps and must agree. "
              "Non-trivial = layout case with >= 2 nodes, partitions and replicas, or any N/R/M case; distinct by hash of the case.",
         histogram=hist_all,
@@ -327,6 +366,6 @@ def run(ctx):
     ), assumptions=[
         "int is 64 bits (int(uint32) + small offsets never overflows)",
         "node ids are unique (they are keys of a Go map) and, for the theorems, non-empty",
-        "the direct oracle judges V2 only on previous layouts with <= p lists, each duplicate-free and <= r long "
-        "(what node loss/addition can produce); other previous layouts are compared model-vs-code only",
+        "the direct oracle judges V2 only on previous layouts with <= p lists, each duplicate-free (any length); "
+        "other previous layouts (duplicates inside a list, more lists than partitions) are compared model-vs-code only",
     ])
